@@ -222,6 +222,12 @@ def op_table(rep):
         ({"key": "tag:aws:x:y", "op": "eq", "value": "v"}, {"Tags": [{"Key": "aws", "Value": "v"}, {"Key": "aws:x:y", "Value": "w"}]}, False),
         ({"key": "tag:aws:x:y", "op": "eq", "value": "w"}, {"Tags": [{"Key": "aws", "Value": "v"}, {"Key": "aws:x:y", "Value": "w"}]}, True),
         ({"key": "length(Items)", "op": "eq", "value": 2}, {"Items": [1, 2]}, True),
+        # tag names with periods; booleans / null inside list values; a null value
+        ({"key": "tag:app.owner", "op": "eq", "value": "me"}, {"Tags": [{"Key": "app.owner", "Value": "me"}], "tag:app": {"owner": "x"}}, True),
+        ({"key": "tag:app.owner", "op": "eq", "value": "me"}, {"Tags": [{"Key": "app.owner", "Value": "you"}], "tag:app": {"owner": "me"}}, False),
+        ({"key": "Flag", "op": "in", "value": [True, "x"]}, {"Flag": True}, True), ({"key": "Flag", "op": "in", "value": [False, "x"]}, {"Flag": True}, False),
+        ({"key": "Opt", "op": "in", "value": [None, "x"]}, {"Opt": None}, True), ({"key": "Opt", "op": "eq", "value": None}, {"Opt": None}, True),
+        ({"key": "Opt", "op": "ne", "value": None}, {"Opt": None}, False),
     ]
     for i, (flt, res, want) in enumerate(cases):
         oid = f"clause[{i}:{flt}]"
